@@ -42,7 +42,12 @@ class Check(PropertyCheck):
                   "touching a flow, every SendData is the re-encoding of a frame the other side delivered, read identically "
                   "by DnsRef, or the SERVFAIL of a client frame; `history_preserves_any_segmentation` (with C27's "
                   "interleaved_seg_independent) makes that independent of how the streams are cut; `delivered_frames`. "
-                  "`compressed_name_read` + `scanRaw_wire_ptr`: labels followed by a pointer to an earlier offset < 16384 are "
+                  "Delivery (the clause 'is delivered'): `deliverable_is_forwarded`, `deliverable_is_forwarded_tcp`, "
+                  "`live_checked_is_forwarded` - a message DnsRef reads whose owner/question labels are plain (ASCII, no dot, no "
+                  "xn--), whose canonical record data fits 16 bits and whose pointer chains are at most 127 deep IS forwarded "
+                  "(connection left open) and read identically; the executable precondition liveCheck is tied to its Python "
+                  "twin (op live). `spec_readable_reencode_stable`: C25's re-encoding clause holds for every message DnsRef "
+                  "reads. `compressed_name_read` + `scanRaw_wire_ptr`: labels followed by a pointer to an earlier offset < 16384 are "
                   "read by DnsRef and by the cache-based decoder as labels ++ target name (the contract with any compressing "
                   "encoder). `forward_never_crashes(_tcp)`, `decoded_message_encodes`, `opaque_types_bytewise`, "
                   "`code_layout_is_rfc_layout`. Tie: real DNSLayer driven through harness/common/world.py in both "
@@ -54,8 +59,8 @@ class Check(PropertyCheck):
                   "(for server->client cases the world first lets the client ask the query each server message answers, so "
                   "that the reply is solicited). `history_preserves` is a theorem about the C27 layer model (tied to the "
                   "code by the C27 check) with acts = []: runs in which addons modify flows are outside C26's statement. "
-                  "The oracle additionally demands that a message made of plain host-name labels is actually delivered; "
-                  "that liveness part is checked on the code, not proved. No theorem covers a compressing *encoder* "
+                  "Delivery is proved for plain ASCII labels only (labels with xn-- or non-ASCII bytes depend on the idna "
+                  "parameter; the oracle's `deliverable` is narrower still). No theorem covers a compressing *encoder* "
                   "(DNSMessage.packed does not compress); `compressed_name_read` states what any such encoder may rely on.")
     technique = "Lean 4 proof (parse agreement between the cache-based decoder and the specification decoder) + differential correspondence through the real DNSLayer"
     rule = ("server-style messages from an independent compressing encoder: compressed names inside CNAME/NS/PTR/MX/SOA/SRV/"
